@@ -1,6 +1,7 @@
 package mgrsim
 
 import (
+	"strconv"
 	"encoding/json"
 	"fmt"
 	"io"
@@ -47,6 +48,9 @@ func (Engine) Execute(planJSON json.RawMessage, scratch string) (res sim.RunResu
 	res.Seed, res.Run = p.Seed, p.Run
 	log.SetOutput(io.Discard)
 	s := &Sim{plan: &p, res: &res, scratch: scratch, watchdogMS: 30000}
+	if w, err := strconv.Atoi(os.Getenv("VERIF_WATCHDOG_MS")); err == nil && w > 0 {
+		s.watchdogMS = w
+	}
 	s.rng = sim.NewRand(p.SchedSeed, 77)
 	if p.Steps != nil {
 		s.replay = p.Steps
